@@ -124,7 +124,7 @@ def main():
                 print(sid, p, r)
     elif cmd == "all":
         for d in sorted(SEEDED.iterdir()):
-            if (d / "meta.json").exists():
+            if (d / "meta.json").exists() and not json.loads((d / "meta.json").read_text()).get("obsolete"):
                 subprocess.run([sys.executable, __file__, "run", d.name])
 
 
